@@ -239,4 +239,3 @@ func TestHistoryChild(t *testing.T) {
 		t.Fatal(err)
 	}
 }
-
